@@ -157,6 +157,42 @@ func runC10With(c *h.Ctx, pfx string, nKeys int, issuers []*c10Issuer, i1 []*typ
 		if !c10Check(c, pfx+"honest", is, tok) {
 			c.Violation("an honestly issued token is rejected by its issuer", map[string]any{"issuer": is.name})
 		}
+		// the SAME token object edited in place between verifications (a server decoding each next redemption into the
+		// buffers of the previous one): accepted, then one byte of a field changed in the same backing array, then
+		// restored. A verdict memo that keeps the caller's slices instead of copies compares the edit with itself.
+		if ti < 6 || c.Thorough() {
+			// w shares its backing arrays with tok, the object whose acceptance just above was the FIRST one of these
+			// bytes (a memo that only stores on a miss aliases that object, not a later equal copy)
+			w := tok
+			saved := cloneTok(tok)
+			if !c10Check(c, pfx+"in-place:accepted-first", is, w) {
+				c.Violation("an honestly issued token is rejected by its issuer the second time", map[string]any{"issuer": is.name})
+			}
+			for fi, f := range [][]byte{w.Authenticator, w.Nonce, w.Context, w.KeyID} {
+				for _, pos := range []int{0, len(f) / 2, len(f) - 1} {
+					for _, m := range []byte{0x01, 0x80, 0xff} {
+						f[pos] ^= m
+						if c10Check(c, pfx+"in-place:edited-after-accept", is, w) {
+							c.Violation("a token edited in place after it was accepted is accepted again", map[string]any{"field": fi, "byte": pos, "mask": m})
+						}
+						f[pos] ^= m
+						if !c10Check(c, pfx+"in-place:restored", is, w) {
+							c.Violation("a token restored in place to its issued value is rejected", map[string]any{"field": fi, "byte": pos})
+						}
+					}
+				}
+			}
+			for i := range w.Authenticator {
+				w.Authenticator[i] = 0
+			}
+			if c10Check(c, pfx+"in-place:edited-after-accept", is, w) {
+				c.Violation("a token whose authenticator was zeroed in place after it was accepted is accepted again", nil)
+			}
+			copy(w.Authenticator, saved.Authenticator)
+			if !c10Check(c, pfx+"in-place:restored", is, w) {
+				c.Violation("a token restored in place to its issued value is rejected", nil)
+			}
+		}
 		if full && ti < 2 { // one type-1 and one type-5 token (the first two honest tokens are of the two types)
 			c10Sweeps(c, is, tok)
 		}
